@@ -192,6 +192,11 @@ def rand_jobdoc(rng, profile):
     for k in SP_KEYS:
         if rng.random() < 0.8:
             sp[k] = leaf()
+    # key names that merely *start* like a namespace
+    if rng.random() < 0.3:
+        sp["speed"] = leaf()
+    if rng.random() < 0.2:
+        sp["docking"] = {"site": leaf()} if rng.random() < 0.5 else leaf()
     r = rng.random()
     if r < 0.45:
         sp["n"] = {"x": leaf()}
@@ -221,7 +226,8 @@ def rand_corpus(rng):
     return list(jobs.values())
 
 
-QUERY_KEYS = ["a", "b", "n.x", "n", "n.z.w", "doc.d", "doc.m.y", "doc.m", "sp.a", "sp.n.x", "zz", "doc.zz"]
+QUERY_KEYS = ["a", "b", "n.x", "n", "n.z.w", "doc.d", "doc.m.y", "doc.m", "sp.a", "sp.n.x", "zz", "doc.zz",
+              "speed", "sp.speed", "docking", "docking.site", "sp.docking.site"]
 
 
 def values_under(corpus, key):
